@@ -871,8 +871,18 @@ class Node:
             assert not self.is_clone()
 
         if keep_children:
-            for c in self.children.copy():
-                c.move_to(self._parent, before=self)
+            # Un-nest the children in place, i.e. at the position of this node.
+            # (Conflicts were checked above. We cannot use `move_to()` here: a
+            # child that holds the same data as this node does not conflict,
+            # because this node is removed.)
+            children = self._children
+            if children:
+                parent = self._parent
+                idx = self._get_sibling_index()
+                for c in children:
+                    c._parent = parent
+                parent._children[idx:idx] = children  # type: ignore
+                self._children = None
         else:
             self.remove_children()
 
